@@ -192,6 +192,50 @@ theorem writes_publish (fs : FS) (r : Ref) (obj : Path) :
         · exact Or.inr (Or.inr (by simp [Ref.paths]))
         · exact Or.inl rfl
 
+theorem writes_publishR (fs : FS) (r : Ref) (obj tdir : Path) (name : String) :
+    WritesIn (fun q => q = obj ∨ (q <+: obj ∧ 2 ≤ q.length) ∨ q ∈ r.paths ∨ q = tdir ++ [name]) (publishR fs r obj tdir name) := by
+  unfold publishR
+  apply WritesIn.append
+  · apply WritesIn.append
+    · exact (writes_mkdirAll _ _).mono (fun q h => Or.inr (Or.inl ⟨h.1.trans (List.dropLast_prefix obj), h.2⟩))
+    · intro s hs q hq
+      unfold rmDirAt at hs
+      split at hs
+      · simp only [List.mem_singleton] at hs; subst hs
+        exact Or.inl (by simpa [Step.writes] using hq)
+      · cases hs
+  · intro s hs q hq
+    split at hs
+    · split at hs
+      · simp only [List.mem_cons, List.not_mem_nil, or_false] at hs
+        rcases hs with rfl | rfl
+        · simp only [Step.writes, List.mem_singleton] at hq
+          exact Or.inr (Or.inr (Or.inr hq))
+        · simp only [Step.writes, List.mem_cons, List.not_mem_nil, or_false] at hq
+          rcases hq with rfl | rfl
+          · exact Or.inr (Or.inr (Or.inr rfl))
+          · exact Or.inl rfl
+      · simp only [List.mem_singleton] at hs; subst hs
+        exact Or.inl (by simpa [Step.writes] using hq)
+    · simp only [List.mem_cons, List.not_mem_nil, or_false] at hs
+      rcases hs with rfl | rfl
+      · simp [Step.writes] at hq
+      · simp only [Step.writes, List.mem_cons, List.not_mem_nil, or_false] at hq
+        rcases hq with rfl | rfl
+        · exact Or.inr (Or.inr (Or.inl (by simp [Ref.paths])))
+        · exact Or.inl rfl
+
+theorem writes_publishC (cfg : Cfg) (fs : FS) (r : Ref) (obj tdir : Path) (name : String) :
+    WritesIn (fun q => q = obj ∨ (q <+: obj ∧ 2 ≤ q.length) ∨ q ∈ r.paths ∨ q = tdir ++ [name]) (publishC cfg fs r obj tdir name) := by
+  unfold publishC
+  split
+  · exact writes_publishR fs r obj tdir name
+  · exact (writes_publish fs r obj).mono (fun q h => by
+      rcases h with h | h | h
+      · exact Or.inl h
+      · exact Or.inr (Or.inl h)
+      · exact Or.inr (Or.inr (Or.inl h)))
+
 /-! ### owned paths -/
 
 theorem objPath_eq (cfg : Cfg) (key : Path) : objPath cfg key = "R" :: cfg.bucket :: key := rfl
